@@ -256,6 +256,28 @@ def search_case(ctx, case, tab, pt, real=None):
         if isinstance(d["segchain"], tuple):
             seg = d["segchain"][1]
             d["codechain"] = free[seg] if seg < len(free) else None
+    # the residue INSTANCE a record is grouped into decides class and name: Biomolecule closes a run of
+    # consecutive records with one (chain, resSeq, iCode) - END also closes it - and names the residue after
+    # the LAST record of the run (create_residue(residue, previous_atom.res_name)); a record's own resName
+    # columns may differ (e.g. a 4-character residue name).  run_resn = that name; key_resns = every resName
+    # listed under the record's residue key (covers records skipped because already placed).
+    raw = c07.raw_lines(text)
+    end_lines = [n for n, l in enumerate(raw) if l.strip()[0:6].strip() == "END"]
+    runs, prev = [], None
+    for d in first:
+        k3 = (d["segchain"], d["seq"], d["ic"])
+        if prev is not None and prev[0] == k3 and not any(prev[1] < n < d["line"] for n in end_lines):
+            runs[-1].append(d)
+        else:
+            runs.append([d])
+        prev = (k3, d["line"])
+    by_key = {}
+    for d in first:
+        by_key.setdefault((d["segchain"], d["seq"], d["ic"]), set()).add(d["resn"])
+    for run in runs:
+        for d in run:
+            d["run_resn"] = run[-1]["resn"]
+            d["key_resns"] = by_key[(d["segchain"], d["seq"], d["ic"])]
     if any(math.isnan(d[k]) or math.isinf(d[k]) for d in kept for k in "xyz"):
         ctx.count("search:non-finite-coordinate")
         return
@@ -322,9 +344,12 @@ def search_case(ctx, case, tab, pt, real=None):
             return
 
         def nucleic(d):
-            rn = d["resn"]
-            rn = rn if rn in tab else {"A": "RA", "C": "RC", "G": "RG", "U": "RU"}.get(rn, rn)
-            return tab.get(rn, ("", {}))[0] == "KNucleic"
+            # class of the residue the record was grouped into, not of the record's own resName columns
+            for rn in [d["run_resn"]] + sorted(d["key_resns"]):
+                rn = rn if rn in tab else {"A": "RA", "C": "RC", "G": "RG", "U": "RU"}.get(rn, rn)
+                if tab.get(rn, ("", {}))[0] == "KNucleic":
+                    return True
+            return False
 
         if all(d["name"] in rm5 and nucleic(d) for d in lost):
             deviation(ctx, dict(base, field="record", condition="5prime-phosphate-removed-by-5TERM-patch"),
@@ -354,9 +379,11 @@ def search_case(ctx, case, tab, pt, real=None):
         if not keep and a["chain"] != "":
             ctx.fail(dict(base, field="chain", condition="chain-printed-without-keep-chain"), a["line"], cs)
             return
-        rn = d["resn"]
+        rn = d["run_resn"]  # the residue instance's name (last record of the run), not the record's own
         rn2 = rn if rn in tab else {"A": "RA", "C": "RC", "G": "RG", "U": "RU"}.get(rn, rn)
         kind, alts = tab.get(rn2, ("KGeneric", {}))
+        if d["resn"] != rn:
+            ctx.count("search:own-resname-differs-from-residue")
         if a["resn"] not in (rn, rn2):
             ctx.count("search:resname-of-last-atom-of-run")
         okn = {d["name"], alts.get(d["name"], d["name"])}
@@ -368,7 +395,7 @@ def search_case(ctx, case, tab, pt, real=None):
             ctx.count("search:alias-renamed")
         want_rec = {"KAmino": "ATOM", "KNucleic": "ATOM", "KWater": "HETATM"}.get(kind, d["rec"])
         if a["rec"] != want_rec and a["resn"] in (rn, rn2):
-            ctx.fail(dict(base, field="record type", condition="type-changed"), f"{d['rec']} {d['resn']} printed as {a['rec']}: {a['line']}", cs)
+            ctx.fail(dict(base, field="record type", condition="type-changed"), f"{d['rec']} {d['resn']} (residue {rn}) printed as {a['rec']}: {a['line']}", cs)
             return
 
 
